@@ -682,6 +682,14 @@ def generate(params):
 				for _ in range(r.randint(0, 3)):
 					a0 = r.randint(0, len(signal[c]) - 1)
 					signal[c][a0:a0 + r.randint(1, W)] = numpy.nan
+		if r.random() < .25 and loci:
+			# input loci lying entirely in a stretch without bigwig entries
+			# (their count is 0 and takes part in the robust minimum)
+			for (c, s_, e_) in r.sample(list(loci), min(len(loci),
+				r.randint(1, 2))):
+				m_ = s_ + (e_ - s_) // 2
+				signal[c][max(0, m_ - W):min(len(signal[c]), m_ + W)] = \
+					numpy.nan
 
 	return {"W": W, "O": O, "w": w, "max_n": max_n, "beta": beta,
 		"genome": genome, "signal": signal, "loci": loci, "chroms": chroms,
